@@ -11,16 +11,16 @@ TRUSTED = [
     "(tied to /repo by the correspondence run, not verified code)",
     "Go harness harness/cmd/hC05 (generators, QPR canonicalisation, in-memory fractions for the high-volume SearchDocs "
     "cases, in-process StoreApiClient adapter around storeapi.GrpcV1.Search) and harness/internal/fracbuild",
-    "spec-checker clause without a theorem: when every merged part counts exactly its own IDs and the limit cuts nothing, "
-    "MergeQPRs' Total and histogram count every distinct ID once (tested on the pure merge cases only)",
     "which documents match the query inside ONE fraction is decided by the harness's own k-in-set oracle; it is "
     "cross-checked on every real case against a real single fraction holding everything (query evaluation is C02's subject)",
 ]
 ASSUME = [
     "IDs are compared without Source/Hint (which of two equal IDs survives the merge is not observable)",
     "counters never reach 2^64 by addition; uint64 decrements (Total, histogram repair) wrap as in Go",
-    "Total/histogram/aggregation equality with the single fraction is claimed only when no ID is stored twice "
-    "(the property's own restriction); the ID list is claimed for every layout including duplicates",
+    "aggregation (and all four sums under a cutting limit) equal the single fraction's only when no hit ID is stored twice "
+    "(MergeQPRs never repairs an aggregation; a duplicate beyond the cut is never seen: both witnessed by Examples); "
+    "Total and histogram with duplicates across fractions are proved equal to one fraction holding every document once "
+    "when the limit cuts nothing and no fraction holds an ID twice; the ID list is claimed for every layout including duplicates",
     "Info.IsIntersecting's optional MIDs-distribution refinement is covered by the theorem hypothesis "
     "(dropped fractions have no hit), the model filters by From/To only",
     "limit, offset, size, FractionsPerIteration >= 0 (negative values are rejected by the proxy / config validation)",
